@@ -57,6 +57,9 @@ def last_init(ops, p):
     return None
 
 
+UP_VERSION = "8.8.8%2B1"      # a release no generated history uses: the storage directory is never a state of it
+
+
 def with_version(init_line, version_tok):
     return re.sub(r"ver=\S+", "ver=" + version_tok, init_line)
 
@@ -92,6 +95,10 @@ def experiment(block, p, work, exp_id, new_version=None, mode="kill", max_k=400)
     pre = observe(root)
     shutil.copytree(root, snap, symlinks=True)
     launch_init = with_version(init, new_version) if new_version else init
+    # "+up": the app is upgraded before it is launched again — the launch after the death is one of another release
+    upgrade = mode.endswith("+up")
+    mode = mode.split("+")[0]
+    recovery_init = with_version(launch_init, UP_VERSION) if upgrade else launch_init
     out = ["K %s %s" % (exp_id, " ".join(block[0].split()[2:]))] + head + vtab + ["P " + pre, launch_init] + launch_ops
     storage = os.path.join(root, "st0")
     k = 0
@@ -129,17 +136,17 @@ def experiment(block, p, work, exp_id, new_version=None, mode="kill", max_k=400)
             break                      # the process survived: k is past its last mutation
         # the call that was running at death: the completed calls printed their observation
         started = len(done) - 1        # -1: died inside the initialisation
-        tag = "k=%d mode=%s%s" % (k, mode, (" started=%d" % started) if started >= 0 else "")
+        tag = "k=%d mode=%s%s%s" % (k, mode, (" started=%d" % started) if started >= 0 else "", " up=1" if upgrade else "")
         if rc != 137:
             out.append("X %s | ABNORMAL rc=%d %s" % (tag, rc, err.strip().replace("\n", " ")[-300:]))
             k += 1
             continue
         crash_obs = observe(root)
-        rrc, robs, rerr = run_ops(root, [launch_init, "O nextn"])
+        rrc, robs, rerr = run_ops(root, [recovery_init, "O nextn"])
         if rrc != 0 or len(robs) != 2:
             out.append("X %s | %s | RECOVERY-FAILED rc=%d %s" % (tag, crash_obs, rrc, rerr.strip().replace("\n", " ")[-300:]))
         else:
-            out.append("X %s | %s | %s | %s | %s" % (tag, crash_obs, launch_init[2:], robs[0], robs[1]))
+            out.append("X %s | %s | %s | %s | %s" % (tag, crash_obs, recovery_init[2:], robs[0], robs[1]))
         k += 1
     out.append("E")
     shutil.rmtree(root, ignore_errors=True)
@@ -219,6 +226,8 @@ def campaign(trace_text, seed, n_experiments, release_change_pct=30, torn_pct=20
         nv = "9.9.9%2B" + str(rnd.randrange(1, 50)) if rnd.randrange(100) < release_change_pct else None
         r = rnd.randrange(100)
         mode = "torn" if r < torn_pct else ("eio" if r < torn_pct + eio_pct else "kill")
+        if mode != "eio" and rnd.randrange(100) < 30:
+            mode += "+up"                    # the next launch is one of another release
         jobs.append((b, p, nv, mode, "x%d-%s-%d" % (len(jobs), block_id(b), p)))
     with ProcessPoolExecutor(max_workers=workers) as ex:
         return list(ex.map(_one, jobs))
